@@ -70,11 +70,18 @@ class Evaluator:
         self.props = {}
         self.methods = {st.name: st for st in cls_node.body if isinstance(st, ast.FunctionDef)}
         self.depth = 0
+        #: fields left out of the dataclass-generated comparisons (`field(compare=False)`), set by the rule from the class bodies
+        self.loc_excluded: set[str] = set()
+        self.span_excluded: set[str] = set()
         for st in cls_node.body:
             if isinstance(st, ast.FunctionDef) and any(
                 isinstance(d, ast.Name) and d.id in ("property", "cached_property") for d in st.decorator_list
             ):
                 self.props[st.name] = st
+
+    def ckey(self, v: LocV) -> tuple:
+        """The tuple the generated ==/< of Loc really compares."""
+        return tuple(x for n, x in (("file", v.file), ("line", v.line), ("column", v.col)) if n not in self.loc_excluded)
 
     # ---- statements
     def run(self, fn: ast.FunctionDef, args: dict[str, object]):
@@ -211,7 +218,7 @@ class Evaluator:
                 self.depth -= 1
             return r if isinstance(op, ast.In) else not r
         if isinstance(a, LocV) and isinstance(b, LocV):
-            ka, kb = a.key(), b.key()
+            ka, kb = self.ckey(a), self.ckey(b)
         elif isinstance(a, IntV) and isinstance(b, IntV):
             if a.kind != b.kind:
                 raise Unsupported("comparison of a line with a column")
@@ -227,7 +234,8 @@ class Evaluator:
         elif isinstance(op, (ast.Is, ast.IsNot)) and (a is None or b is None):
             return (a is b) if isinstance(op, ast.Is) else (a is not b)
         elif isinstance(op, (ast.Eq, ast.NotEq)) and isinstance(a, SpanV) and isinstance(b, SpanV):
-            eq = a.start.key() == b.start.key() and a.end.key() == b.end.key()
+            eq = ("start" in self.span_excluded or self.ckey(a.start) == self.ckey(b.start)) and (
+                "end" in self.span_excluded or self.ckey(a.end) == self.ckey(b.end))
             return eq if isinstance(op, ast.Eq) else not eq
         else:
             raise Unsupported(f"comparison between {a!r} and {b!r}")
@@ -266,7 +274,7 @@ class Evaluator:
             if not all(isinstance(v, LocV) for v in vals):
                 raise Unsupported("max/min of non-locations")
             # Python's max returns the first maximal element; equal keys are equal Locs
-            return (max if name == "max" else min)(vals, key=lambda v: v.key())
+            return (max if name == "max" else min)(vals, key=self.ckey)
         if name is not None and self.kinds.get(name) == "Span":
             vals = [self.ev(a, env) for a in e.args]
             kw = {k.arg: self.ev(k.value, env) for k in e.keywords}
